@@ -257,7 +257,7 @@ theorem xr_foldl_addS2 (cs : List Str) (svc : SUnit) :
 
 theorem execs_fromVolume (E : Env) (path : Str) (u svc : SUnit) (n : Str) (h : fromVolume E path u = .ok (svc, n)) :
     ExecRendered (preService path u (s "Volume") (s "X-Volume")) svc := by
-  unfold fromVolume at h
+  unfold fromVolume volumeOpts at h
   simp only [bind_ok] at h
   obtain ⟨_, _, _, _, x, hx, svc1, hexec, hfin⟩ := h
   simp only [pure, Except.pure, Except.ok.injEq, Prod.mk.injEq] at hfin
